@@ -362,7 +362,20 @@ def perturb(ts, kinds, p):
         used = set(old_pos)
         L = tables.sequence_length
         new_pos = []
-        for f in p["mono_fracs"]:
+        fracs = list(p["mono_fracs"])
+        if p.get("mono_equalise"):
+            # boundary class: make the site and mutation tables the same length although some sites
+            # carry several mutations (add exactly num_mutations - num_sites monomorphic sites)
+            want = tables.mutations.num_rows - len(old_pos)
+            if want > 0:
+                fracs = [(fracs[i % len(fracs)] + i * 0.6180339887498949) % 1.0 for i in range(4 * want)]
+            else:
+                want = None
+        else:
+            want = None
+        for f in fracs:
+            if want is not None and len(new_pos) >= want:
+                break
             pos = float(f) * L
             if p.get("mono_integer"):
                 pos = float(int(pos))
